@@ -215,6 +215,11 @@ class C05(Prop):
         g = S('bare')
         L = world._r(rng.loguniform(g, 0.02, 1.0), 4)
         # requirement from 1e-7 m to cm; keep the plane count bounded
+        gi = S('inch')
+        if rng.chance(gi, 0.3):
+            # a core length given in inches: the converted value carries a
+            # float residue below the 1e-12 m rounding of the mesh planes
+            L = float(int(gi.integers(2, 80)) * 0.5 * 2.54 / 100)
         cap = 4e4 if tier == 'quick' else 3e5
         lo = max(1e-7, L / cap)
         n_req = int(g.integers(1, 6))
@@ -281,7 +286,8 @@ class C05(Prop):
             for i in range(len(zb) - 1):
                 regs[f'r{i}'] = {'z_lo': zb[i], 'z_hi': zb[i + 1]}
             asm[f'a{a}'] = {'AxialRegion': regs}
-        inp = types.SimpleNamespace(data={'Assembly': asm})
+        inp = types.SimpleNamespace(data={'Assembly': asm,
+                                          'Core': {'length': case['L']}})
         r.min_dz = {'dz': list(case['reqs']),
                     'sc': ['x'] * len(case['reqs'])}
         cb = CallBudget()
